@@ -186,7 +186,11 @@ P_C11(c) == P_C11x(c, TRUE)
 (* ---- C13: output does not depend on the source formatting of collapsible whitespace -------- *)
 \* runs 1 and 2: the document and its rewrite r(d), same width and configuration
 SameResult(a, b) == a.res.k = b.res.k /\ a.res.lines = b.res.lines
-P_C13(c) == \A i \in 2..Len(c.runs) : SameResult(c.runs[1], c.runs[i])
+\* (fragment markers are left out of this comparison: where the marker of an id *without* visible content goes,
+\*  or whether it appears at all, is not fixed - C14 allows 0 or 1 - and depends on the white space around it;
+\*  the markers of ids with content are pinned to their letters by C14 in each document on its own)
+SameText(a, b) == a.res.k = b.res.k /\ [i \in 1..Len(a.res.lines) |-> NoFrags(a.res.lines[i])] = [i \in 1..Len(b.res.lines) |-> NoFrags(b.res.lines[i])]
+P_C13(c) == \A i \in 2..Len(c.runs) : SameText(c.runs[1], c.runs[i])
 
 (* ---- C15: layout options are orthogonal and do only what they say --------------------------- *)
 \* runs: 1 = base configuration, 2 = base + option meta.opt (argument meta.arg); meta.applies says
@@ -476,9 +480,12 @@ P_C08(c) ==
             \* (per cell inside side-by-side tables: only the multiset is checked there)
             \* (inside side-by-side cells a reference may be cut by the cell boundary, so there only:
             \*  every complete reference is one of 1..n and none occurs twice)
+            \* (only the references that stand complete on one line: two cells of a row may each cut one on the
+            \*  same line, and the pieces of different cells interleave)
             /\ IF HasTable(dom) /\ ~cf.raw
-               THEN /\ \A i \in 1..Len(refs) : refs[i].k \in 1..n
-                    /\ \A i, j \in 1..Len(refs) : i # j => refs[i].k # refs[j].k
+               THEN LET whole == Concat([i \in 1..nbody |-> RefsIn(NoStrike(body[i]))]) IN
+                    /\ \A i \in 1..Len(whole) : whole[i].k \in 1..n
+                    /\ \A i, j \in 1..Len(whole) : i # j => whole[i].k # whole[j].k
                ELSE \* the readable references are increasing numbers of 1..n; one may be missing only for
                     \* each reference that hard wrapping cut into three or more pieces
                     /\ \A i \in 1..Len(refs) : refs[i].k \in 1..n
